@@ -320,7 +320,12 @@ def run_case(case, monitor, storage_factory=None, hooks=None, extra_rounds=6, ke
         if cursor_watch:
             for sd in (0, 1):
                 cursor_watch.restart(sd, False)
+        if hooks.get("on_crash"):
+            # C07: the surviving storage (re-opened from the file) and providers, before any new engine exists
+            hooks["on_crash"](world, storage, res)
         new_engine()
+        if hooks.get("after_restart"):
+            hooks["after_restart"](H["eng"], world)
 
     try:
         eng = new_engine()
@@ -387,7 +392,17 @@ def run_case(case, monitor, storage_factory=None, hooks=None, extra_rounds=6, ke
                     pass
                 emit([2], ("crash",))
                 crash_recover()
-                break
+                # C07 witnesses (additive): user operations made between the process death and the restart
+                for side_, op_ in case.get("after_crash_user", []):
+                    world.user(side_, op_)
+                    n_user += 1
+                    emit([0, side_, it.op(op_)], ("user", side_, op_[0], op_[1:]))
+                if not case.get("resume_after_crash"):
+                    break
+                # C07 (additive): recover to quiescence first, then the rest of the schedule continues on the new engine
+                if not drain(400):
+                    res.stuck = True
+                    break
         if not res.stuck:
             try:
                 if not drain(400):
